@@ -244,7 +244,7 @@ def _check(case, obs, base, FlowCal, xl):
 def curated():
     lad = lambda k: ', '.join(str(v * k) for v in xlgen.LADDER)
     i1 = dict(id='I1', fsc='FSC-H', ssc='SSC-H', fl=['FL1-H', 'FL2-H'], time='Time')
-    i2 = dict(id='I2', fsc='FSC-A', ssc='SSC-A', fl=['Pacific Blue-A', 'GFP'], time='TIME')
+    i2 = dict(id='I2', fsc='FSC-A', ssc='SSC-A', fl=['Pacific Blue-A', 'PE(YG)-A'], time='TIME')
     cells = lambda inst, seed, dt='I', res=1024: dict(kind='cells', instrument=inst, seed=seed, n=600, datatype=dt, res=res)
     out = []
     # the same file analysed with two different bead rows (and once without calibration), same units
@@ -272,15 +272,16 @@ def curated():
                              # a file that records no detector voltages, calibrated
                              dict(id='S10', instrument='I1', beads='B1', file='c7.fcs', gate_fraction=0.5, units={'FL1-H': 'MEF'})],
                     np_seed=9, via_workbook=False, hist=True))
-    # two instruments, names with blanks, different resolutions, workbook round trip
+    # two instruments, names with blanks and with characters that are special in regular expressions, different
+    # resolutions, workbook round trip
     out.append(dict(instruments=[i1, i2],
                     files={'beads1.fcs': dict(kind='beads', instrument='I2', seed=41), 'c1.fcs': cells('I2', 42, 'I', 4096),
                            'c2.fcs': cells('I1', 43, 'I', 256), 'c3.fcs': cells('I2', 44, 'F')},
-                    beads=[dict(id='B1', instrument='I2', file='beads1.fcs', gate_fraction=0.5, clustering=['Pacific Blue-A', 'GFP'],
+                    beads=[dict(id='B1', instrument='I2', file='beads1.fcs', gate_fraction=0.5, clustering=['Pacific Blue-A', 'PE(YG)-A'],
                                 mef={'Pacific Blue-A': lad(1)})],
-                    samples=[dict(id='S1', instrument='I2', beads='B1', file='c1.fcs', gate_fraction=0.85, units={'Pacific Blue-A': 'MEF', 'GFP': 'Channel'}),
+                    samples=[dict(id='S1', instrument='I2', beads='B1', file='c1.fcs', gate_fraction=0.85, units={'Pacific Blue-A': 'MEF', 'PE(YG)-A': 'Channel'}),
                              dict(id='S2', instrument='I1', beads=None, file='c2.fcs', gate_fraction=0.5, units={'FL1-H': 'Channel', 'FL2-H': 'rfi'}),
-                             dict(id='S3', instrument='I2', beads='B1', file='c3.fcs', gate_fraction=0.5, units={'GFP': 'A.U.'})],
+                             dict(id='S3', instrument='I2', beads='B1', file='c3.fcs', gate_fraction=0.5, units={'PE(YG)-A': 'A.U.'})],
                     np_seed=10, via_workbook=True, hist=True))
     return out
 
